@@ -1123,6 +1123,12 @@ pub fn gen_scn(id: &str, rng: &Rng, thorough: bool) -> ParScn {
             None
         };
         scn.input = gen_input(rng, fasta, n_recs, invalid);
+        if !fasta && invalid.is_none() && matches!(id, "C15" | "C08") && rng.chance(1, 8) {
+            // a tail of CR / LF characters in any order after the last record
+            for _ in 0..rng.range(1, 5) {
+                scn.input.push(*rng.pick(&['\r', '\n', '\r']));
+            }
+        }
         scn.cap = if rng.chance(1, 4) || (id == "C16" && rng.chance(2, 3)) { rng.range(40, 200) } else { rng.range(3, 40) };
         scn.script = match rng.below(4) {
             0 => vec![],
